@@ -4,6 +4,10 @@ Three independent pieces, all working on one JSON-able *graph descriptor*::
 
     {'elems': [{'type': str, 'name': str, 'uuid': '<32 hex>', 'attrs': [[name, vtype, is_array, value], ...]}, ...]}
 
+* an element may carry ``'post': {'noname': 'del'|'pop'|'clear'|'popitem', 'edits': [['readd', i] |
+  ['retype', i, vtype, is_array, value] | ['setdefault', name, vtype, is_array, value], ...]}``: edits applied after
+  building through the Mapping-style mutators of `Element` (so graphs are not only freshly constructed ones), and the
+  removal of the ``name`` attribute through one of four public routes (``Element.name`` is then '').
 * element 0 is the root; ``vtype`` is a `srctools.dmx.ValueType` *value* string (``'int'``, ``'vector3'``, ...);
   ``value`` is one item (scalar) or a list of items (array).  Items per type:
   ``element`` ``['e', index]`` (index is taken modulo the number of elements) | ``['null']`` | ``['stub', '<32 hex>']``;
@@ -143,7 +147,7 @@ def _finish(pair):
         kids = children[elems[i][6] % i]
         kids.insert((elems[i][6] // 12) % (len(kids) + 1), ['e', i])
     out = []
-    for i, (etype, ename, attrs, link_name, _, link_pos, _) in enumerate(elems):
+    for i, (etype, ename, attrs, link_name, _, link_pos, _, post) in enumerate(elems):
         alist = []
         for nm, (vt, (is_arr, val)) in attrs:
             if vt == 'element':
@@ -153,12 +157,26 @@ def _finish(pair):
             while any(a[0].casefold() == link_name.casefold() for a in alist) or link_name.casefold() == 'name':
                 link_name += '_'
             alist.insert(link_pos % (len(alist) + 1), [link_name, 'element', True, children[i]])
-        out.append({'type': etype, 'name': ename, 'uuid': hexes[i], 'attrs': alist})
+        ed = {'type': etype, 'name': ename, 'uuid': hexes[i], 'attrs': alist}
+        if post is not None:
+            noname, edits = post
+            fixed = []
+            for edit in edits:
+                if edit[0] == 'readd':
+                    fixed.append(list(edit))
+                    continue
+                kind, key, (vt, (is_arr, val)) = edit
+                if vt == 'element':
+                    val = [fix(x) for x in val] if is_arr else fix(val)
+                fixed.append([kind, key, vt, is_arr, val])
+            if noname or fixed:
+                ed['post'] = {'noname': noname, 'edits': fixed}
+        out.append(ed)
     return {'elems': out}
 
 
 @functools.lru_cache(maxsize=None)
-def _graphs(max_elems, max_attrs, max_array, ascii_only, nul, vtypes, kv2_safe_types, text_size):
+def _graphs(max_elems, max_attrs, max_array, ascii_only, nul, vtypes, kv2_safe_types, text_size, post_edits):
     text = _text(ascii_only, nul, text_size)
     items = _item_strategies(text)
 
@@ -181,7 +199,16 @@ def _graphs(max_elems, max_attrs, max_array, ascii_only, nul, vtypes, kv2_safe_t
         links = st.lists(_ELEM_ITEM, max_size=max(2, max_array - 2))
     else:
         links = st.just([])
-    elem = st.tuples(type_name, text, attrs, attr_name, links, st.integers(0, max_attrs), st.integers(0, 143))
+    edit = st.one_of(
+        st.tuples(st.just('readd'), st.integers(0, max_attrs)),
+        st.tuples(st.just('retype'), st.integers(0, max_attrs), st.one_of(choices)),
+        st.tuples(st.just('setdefault'), attr_name, st.one_of(choices)),
+    )
+    post = st.one_of(
+        st.none(), st.none(), st.none(),
+        st.tuples(st.sampled_from([None, 'del', 'pop', 'clear', 'popitem']), st.lists(edit, max_size=2)),
+    ) if post_edits else st.none()
+    elem = st.tuples(type_name, text, attrs, attr_name, links, st.integers(0, max_attrs), st.integers(0, 143), post)
     n_ids = max_elems + N_STUB_POOL
     # 15 random bytes + a distinct non-zero last byte each: distinct, non-zero UUIDs from a single choice.
     ids = st.binary(min_size=15 * n_ids, max_size=15 * n_ids).map(
@@ -202,16 +229,18 @@ def graph_descs(
     vtypes: Optional[list] = None,
     kv2_safe_types: bool = True,
     text_size: int = 8,
+    post_edits: bool = True,
 ):
     """Strategy for graph descriptors.  ``ascii_only=None``: decided per graph (half of the graphs are pure ASCII).
 
     Respected by construction: distinct UUIDs for all elements, stub UUIDs distinct from them and non-zero;
     attribute names distinct case-insensitively and never ``name`` (that key *is* the element name);
     strings hold no lone surrogates and (unless ``nul``) no NUL; with ``kv2_safe_types`` an element type is never
-    a KeyValues2 keyword.  Element references are indices taken modulo the number of elements.
+    a KeyValues2 keyword.  Element references are indices taken modulo the number of elements.  With ``post_edits``
+    about a quarter of the elements carry post-build edits / a removed ``name`` attribute (see the module docstring).
     """
     args = (max_elems, max_attrs, max_array)
-    rest = (nul, tuple(vtypes or VTYPES), kv2_safe_types, text_size)
+    rest = (nul, tuple(vtypes or VTYPES), kv2_safe_types, text_size, post_edits)
     if ascii_only is None:
         return st.one_of(_graphs(*args, True, *rest), _graphs(*args, False, *rest))
     return _graphs(*args, bool(ascii_only), *rest)
@@ -272,6 +301,15 @@ def build_graph(desc: dict):
         'qangle': lambda nm, a: Attribute.angle(nm, a.pitch, a.yaw, a.roll),
         'quaternion': lambda nm, q: Attribute.quaternion(nm, q.x, q.y, q.z, q.w),
     }
+    def make(nm, vt, is_arr, val):
+        """An `Attribute`, or (element / matrix scalars, which have no constructor method) the bare value whose type
+        `Element.__setitem__` / `setdefault` deduce."""
+        if is_arr:
+            return Attribute.array(nm, ValueType(vt), [conv[vt](x) for x in val])
+        if vt in scalar_ctor:
+            return scalar_ctor[vt](nm, conv[vt](val))
+        return conv[vt](val)
+
     for elem, ed in zip(elems, edescs):
         seen = set()
         for nm, vt, is_arr, val in ed['attrs']:
@@ -279,14 +317,68 @@ def build_graph(desc: dict):
             if key == 'name' or key in seen:
                 raise ValueError(f'descriptor has reserved/duplicate attribute name {nm!r}')
             seen.add(key)
-            if is_arr:
-                elem[nm] = Attribute.array(nm, ValueType(vt), [conv[vt](x) for x in val])
-            elif vt in scalar_ctor:
-                elem[nm] = scalar_ctor[vt](nm, conv[vt](val))
-            else:
-                # element and matrix scalars have no constructor method: assignment deduces the type.
-                elem[nm] = conv[vt](val)
+            elem[nm] = make(nm, vt, is_arr, val)
+        post = ed.get('post') or {}
+        # Post-build edits through the Mapping-style mutators (the model is `effective_attrs`).
+        model = [list(a) for a in ed['attrs']]
+        for edit in post.get('edits', ()):
+            if edit[0] == 'readd' and model:            # delete, then add again: moves to the end
+                a = model.pop(edit[1] % len(model))
+                model.append(a)
+                del elem[a[0]]
+                elem[a[0]] = make(*a)
+            elif edit[0] == 'retype' and model:         # assignment over an existing key: keeps its position
+                i = edit[1] % len(model)
+                model[i] = [model[i][0]] + list(edit[2:5])
+                elem[model[i][0]] = make(*model[i])
+            elif edit[0] == 'setdefault':
+                key = edit[1].casefold()
+                if key == 'name':
+                    raise ValueError('setdefault edit on the reserved name')
+                got = elem.setdefault(edit[1], make(*edit[1:5]))
+                if all(a[0].casefold() != key for a in model):
+                    model.append(list(edit[1:5]))
+                elif got is not elem[edit[1]]:
+                    raise ValueError('setdefault returned a foreign attribute')
+        how = post.get('noname')
+        if how == 'del':
+            del elem['name']
+        elif how == 'pop':
+            elem.pop('name')
+        elif how == 'clear':
+            elem.clear()
+            for a in model:
+                elem[a[0]] = make(*a)
+        elif how == 'popitem':
+            popped = []
+            while len(elem):
+                popped.append(elem.popitem())
+            for nm, attr in reversed(popped):
+                if nm != 'name':
+                    elem[nm] = attr
+        elif how is not None:
+            raise ValueError(f'bad noname route {how!r}')
     return elems[0]
+
+
+def effective_attrs(ed: dict) -> list:
+    """Pure model of an element descriptor's attribute list after its ``post`` edits."""
+    model = [list(a) for a in ed['attrs']]
+    for edit in (ed.get('post') or {}).get('edits', ()):
+        if edit[0] == 'readd' and model:
+            model.append(model.pop(edit[1] % len(model)))
+        elif edit[0] == 'retype' and model:
+            i = edit[1] % len(model)
+            model[i] = [model[i][0]] + list(edit[2:5])
+        elif edit[0] == 'setdefault':
+            if all(a[0].casefold() != edit[1].casefold() for a in model):
+                model.append(list(edit[1:5]))
+    return model
+
+
+def effective_name(ed: dict) -> str:
+    """``Element.name`` is documented to be '' once the name attribute has been removed."""
+    return '' if (ed.get('post') or {}).get('noname') else ed['name']
 
 
 # ------------------------------------------------------------------------------------------------------------------
@@ -316,7 +408,7 @@ def canon_desc(desc: dict) -> dict:
         ed = edescs[order[pos]]
         pos += 1
         attrs = []
-        for nm, vt, is_arr, val in ed['attrs']:
+        for nm, vt, is_arr, val in effective_attrs(ed):
             if vt == 'element':
                 def ref(item):
                     if item[0] == 'e':
@@ -334,7 +426,13 @@ def canon_desc(desc: dict) -> dict:
             else:
                 cval = _canon_item_desc(vt, val)
             attrs.append([nm, vt, bool(is_arr), cval])
-        nodes.append({'type': ed['type'], 'name': ed['name'], 'uuid': ed['uuid'], 'attrs': attrs})
+        node = {'type': ed['type'], 'name': effective_name(ed), 'uuid': ed['uuid'], 'attrs': attrs}
+        post = ed.get('post') or {}
+        if post.get('noname'):
+            node['name_removed'] = post['noname']      # provenance only; canon_diff ignores these keys
+        if post.get('edits'):
+            node['edited'] = [e[0] for e in post['edits']]
+        nodes.append(node)
     return {'nodes': nodes}
 
 
@@ -484,6 +582,7 @@ def graph_facts(canon: dict) -> dict:
         'elements': len(nodes), 'shared': False, 'cycle': False, 'self_ref': False, 'array': False,
         'empty_array': False, 'stub': False, 'stub_in_array': False, 'null': False, 'null_in_array': False,
         'non_ascii': False, 'has_time': False, 'nul': False, 'cells': set(), 'indegree': indeg,
+        'name_removed': set(), 'name_removed_with_attrs': False, 'edits': set(),
     }
 
     def text(s):
@@ -495,6 +594,11 @@ def graph_facts(canon: dict) -> dict:
     for i, node in enumerate(nodes):
         text(node['type'])
         text(node['name'])
+        if node.get('name_removed'):
+            facts['name_removed'].add(node['name_removed'])
+            if node['attrs']:
+                facts['name_removed_with_attrs'] = True
+        facts['edits'].update(node.get('edited', ()))
         for nm, vt, is_arr, val in node['attrs']:
             text(nm)
             facts['cells'].add((vt, is_arr))
